@@ -27,23 +27,28 @@ def _relax_base_exception(mod, clsname, names):
 
 
 _relax_base_exception(BDM, 'TaggedRecord', ['_parse_illumina_header', 'fromRawFastq'])
-# regex cut: fqSafe's regex is replaced by the equivalent per-character filter (validated in preflight)
-_SAFE = set(string.ascii_letters + string.digits + '-_')
+# regex cut: fqSafe's regex is replaced by a per-character filter whose alphabet is READ FROM THE LIVE REGEX at load
+# (every code point below 0x3000 the regex keeps); validated against the live regex on strings in preflight
+_SAFE = frozenset(chr(cp) for cp in range(0, 0x3000) if BDM.fastqCleanerRegex.sub('', chr(cp)) == chr(cp))
 
 
 def _fqsafe(s) -> str:
-    return ''.join(c for c in s if ('a' <= c <= 'z') or ('A' <= c <= 'Z') or ('0' <= c <= '9') or c == '-' or c == '_')
+    return ''.join(c for c in s if c in _SAFE)
 
 
+_FQSAFE_REAL = BDM.fqSafe
 BDM.fqSafe = _fqsafe
 
 
 def preflight():
-    import re
-    rx = re.compile('[^a-zA-Z0-9-_]', re.UNICODE)
-    bad = [cp for cp in range(0, 0x3000) if (rx.sub('', chr(cp)) == chr(cp)) != (_fqsafe(chr(cp)) == chr(cp))]
-    assert not bad, bad[:5]
-    return dict(fqsafe_filter_vs_regex='identical on code points 0..0x2FFF')
+    import random
+    rnd = random.Random(4)
+    alphabet = [chr(cp) for cp in list(range(32, 127)) + [0xe9, 0x3b1, 0x2028, 0x3001, 0x1F600]]
+    for _ in range(3000):
+        t = ''.join(rnd.choice(alphabet) for _ in range(rnd.randint(0, 12)))
+        assert _FQSAFE_REAL(t) == _fqsafe(t) or any(ord(c) >= 0x3000 for c in t), repr(t)
+    kept = ''.join(sorted(c for c in _SAFE))
+    return dict(fqsafe_filter_vs_regex='identical on 3000 random strings; alphabet kept by the live regex: %r' % kept)
 
 
 def l1_codec_e2(tier='quick', case=None, seed=0):
@@ -103,7 +108,8 @@ def _l1_codec(q: str) -> bool:
 def _l2_field(field: int, vi: int, bi: int, ri: int) -> bool:
     """
     pre: 0 <= field <= 6
-    pre: 0 <= vi < 33
+    pre: 0 <= vi < 34
+    pre: vi < 33 or field == 5
     pre: 0 <= bi <= 4
     pre: 0 <= ri <= 3
     post: _
@@ -157,13 +163,13 @@ PROPERTY = dict(
                'baseDemultiplexMethods.TaggedRecord (fromRawFastq, _parse_illumina_header, asFastq, fromTaggedBamRecord, addTagByTag, tagPysamRead, asIlluminaHeader)',
                'universalBamTagger.QueryNameFlagger.digest'],
     bounds=dict(codec='E2: every integer code point >= 33 (unbounded); E1: every 1-char (thorough 2-char) string over 33..126',
-                roundtrip='L2: one field (RX, BC, bc, LY, MX, aA/aa, rS) takes every value of a pool of 33 strings (all 1-2 character strings over {a,Z,0,-,_}, N, a 10-mer, a 40-mer) selected by a symbolic index, x 5 cell indices x 4 encoded UMI-quality strings; '
+                roundtrip='L2: one field (RX, BC, bc, LY, MX, aA/aa, rS) takes every value of a pool of 34 strings (all 1-2 character strings over {a,Z,0,-,_}, N, a 10-mer, a 40-mer; for the sequencing index also the dual index ATCACG+CGTGAT) selected by a symbolic index, x 5 cell indices x 4 encoded UMI-quality strings; '
                           'L4: real NLAIII384C8U3 / CS2C8U6 strategies end to end with UMI / quality / library / index values from concrete pools of 3 selected by symbolic indices, 5 cell indices; symbolic strings through the ;/: header split proved out of reach (one path > 14 s, see DESIGN 6)',
                 guard='library length 0..300', sequence='every sequence of 3 reads drawn from {CELSeq2 read with UMI, ScarTrace read without UMI, bulk read} through ONE flagger instance'),
-    outside=['pysam storage of tags / query names (replay only)', 'library names outside the header-safe alphabet', 'dual (+) sequencing indices',
+    outside=['pysam storage of tags / query names (replay only)', 'library names outside the header-safe alphabet',
              'headers of the short 7-field and already-demultiplexed styles (C01 covers parsing them)'],
     assumptions=['StubBarcodeParser accepts and returns the barcode unchanged (C03 proves the real parser)',
-                 'fqSafe regex replaced by the equivalent per-character filter (validated on 0..0x2FFF each run)',
+                 'fqSafe regex replaced by a per-character filter whose alphabet is read from the live regex on every run (code points < 0x3000; validated on random strings)',
                  '`except BaseException` in TaggedRecord._parse_illumina_header/fromRawFastq recompiled as `except Exception` for the harness run only',
                  'aligner keeps the FASTQ header (up to the first blank) as the read name'],
     trusted=['stubs/fakeread.py', 'stubs/stubparser.py', 'spec/c04.py'],
